@@ -183,8 +183,11 @@ func (fx *FX) inlineCall(fr *frame, st *State, callee *ssa.Function, args []Val,
 }
 
 // bindNames builds the identifier environment for a contract instance.
-func (fx *FX) contractNames(c *Contract, callee *ssa.Function, sig *types.Signature, args []Val, results []Val) map[string]Val {
+func (fx *FX) contractNames(c *Contract, callee *ssa.Function, sig *types.Signature, args []Val, results []Val, fnv *Val) map[string]Val {
 	names := map[string]Val{}
+	if fnv != nil {
+		names["self"] = *fnv
+	}
 	for i, a := range args {
 		names[fmt.Sprintf("a%d", i)] = a
 	}
@@ -248,11 +251,8 @@ func (fx *FX) applyContract(fr *frame, st *State, c *Contract, name string, call
 		}
 	}
 	if c != nil {
-		for _, ax := range c.Uses {
-			fx.usesAx[ax] = true
-		}
 		env := fx.newEnv(fr, st)
-		env.names = fx.contractNames(c, callee, sig, targs, nil)
+		env.names = fx.contractNames(c, callee, sig, targs, nil, fnv)
 		env.onlyNames = true
 		for j, cl := range c.Requires {
 			g := fx.evalBool(env, cl.Expr)
@@ -292,7 +292,7 @@ func (fx *FX) applyContract(fr *frame, st *State, c *Contract, name string, call
 	if c != nil {
 		env := fx.newEnv(fr, st)
 		env.old = old
-		env.names = fx.contractNames(c, callee, sig, targs, results)
+		env.names = fx.contractNames(c, callee, sig, targs, results, fnv)
 		env.onlyNames = true
 		for _, cl := range c.Ensures {
 			fx.assume(st.reach, fx.evalBool(env, cl.Expr))
